@@ -11,7 +11,8 @@ the continuation is not demanded any more: the torus grid is dropped, only the g
 violation by itself.
 
 Strengthened slices (docs/STRENGTHEN_TASK.md; alphabets in mc/ref/c08x.py):
-  C08.types     both angles as python float / int, np.float64 / float32 / int64 / int32 scalars, l as int / np.int64, azimuth up to 2 pi
+  C08.types     both angles as python float / int, np.float64 / float32 / int64 / int32 scalars and as numpy 0-d arrays (round 4), l as int / np.int64 /
+                int32 / int16 / int8, azimuth up to 2 pi
   C08.scale     the polar angle as a numpy array (sizes 1, 64, 65, 257, 2-D; thorough 63..1025) with a scalar azimuth
   C08.sequence  explicit-state search over call words (l = 4, 6, 12 x two angle pairs x dispatcher / direct) in forked children
 """
@@ -22,7 +23,16 @@ import numpy as np
 
 from mc import harness
 from mc.harness import Result, Sub
-from mc.ref import c08x, ylm
+from mc.ref import c08x, c08y, ylm
+
+# KNOWN_OPEN ----------------------------------------------------------------------------------------------------------------------
+# Defects of the unchanged tree found by the round-4 slices and NOT yet repaired in /repo; the listed cases are skipped so that the
+# check stays silent.  Remove an entry when the maintainer has repaired it - the cases then run and must pass.
+#   "0d-azimuth-inplace": SphHarm_above (l > 10) does `phi += 2*np.pi` for a negative azimuth.  With the azimuth given as a numpy 0-d
+#       array this (a) overwrites the CALLER's array in place (float dtypes; the returned values are right) and (b) raises
+#       UFuncTypeError for an integer 0-d array (witness: SphHarm_above(11, np.array(1), np.array(-1))).
+#       Proposed repair (one line): `phi = phi + 2 * np.pi`.
+KNOWN_OPEN = []  # "0d-azimuth-inplace" was repaired by /repo commit 8721bbe (known_findings.json: fixed)
 
 ASSUMPTIONS = [
     "first argument = polar angle, second = azimuth (the docstrings of the module have the two names exchanged; the "
@@ -43,6 +53,10 @@ ASSUMPTIONS = [
     "a wrong shape or a modified input array are.  Azimuth arrays are not exercised (the unchanged tree rejects them for "
     "l <= 10 and overwrites a negative azimuth array in place for l > 10)",
     "C08.sequence: the value returned by a call must not depend on the calls made before it in the same process",
+    "C08.types (round 4): numpy 0-d arrays (float64, float32, int64) are accepted for both angles like the corresponding scalars and must come back unchanged; "
+    "the degree may be a signed numpy integer of any width that holds 2l+1 (int8..int64); unsigned numpy integers are NOT demanded (-l wraps around: "
+    "np.uint8(11) makes SphHarm_above raise on the unchanged tree - `l (int)` is what the docstrings promise); KNOWN_OPEN 0d-azimuth-inplace: negative "
+    "azimuth as a 0-d array for l > 10 is skipped until repaired",
 ]
 
 RTOL, ATOL = 1e-9, 1e-11
@@ -262,6 +276,12 @@ def _fn(l, via):
         return lambda a, b: sh.sph_harm_l(l, a, b)
     if via == "dispatch_npint":  # the degree itself as a numpy integer
         return lambda a, b: sh.sph_harm_l(np.int64(l), a, b)
+    if via.startswith("dispatch_np:"):
+        lt = c08y.L_TYPES[via.split(":")[1]](l)
+        return lambda a, b: sh.sph_harm_l(lt, a, b)
+    if via.startswith("direct_np:") and l > 10:
+        lt = c08y.L_TYPES[via.split(":")[1]](l)
+        return lambda a, b: sh.SphHarm_above(lt, a, b)
     if l <= 10:
         return getattr(sh, "SphHarm%d" % l)
     if via == "direct_npint":
@@ -271,26 +291,33 @@ def _fn(l, via):
 
 def gen_types(tier, seed):
     for l in range(1, 21):
-        for form in c08x.SCALAR_FORMS:
+        for form in c08x.SCALAR_FORMS + c08y.ZERO_D_FORMS:
             yield {"l": l, "form": form}
 
 
 def run_types(case):
     R = Result()
     l, form = case["l"], case["form"]
-    mk = {"pyfloat": float, "np.float64": np.float64, "np.float32": np.float32, "pyint": int, "np.int64": np.int64, "np.int32": np.int32}[form]
+    mk = {"pyfloat": float, "np.float64": np.float64, "np.float32": np.float32, "pyint": int, "np.int64": np.int64, "np.int32": np.int32, **c08y.MAKERS}[form]
     ths, phs = (c08x.INT_THETA, c08x.INT_PHI) if "int" in form else (c08x.DYADIC_THETA, c08x.DYADIC_PHI)
     ref = ylm.Y_grid(l, ths, phs)
-    rt, at = (1e-3, 1e-3) if form == "np.float32" else (RTOL, ATOL)
+    rt, at = (1e-3, 1e-3) if "float32" in form else (RTOL, ATOL)
+    zero_d = form in c08y.ZERO_D_FORMS
     allv = []
-    for via in ("direct", "dispatch", "dispatch_npint", "direct_npint"):
-        if via == "direct_npint" and l <= 10:
+    for via in ("direct", "dispatch", "dispatch_npint", "direct_npint", "dispatch_np:int32", "dispatch_np:int8", "dispatch_np:int16", "direct_np:int16", "direct_np:int8"):
+        if via.startswith("direct_np") and l <= 10:
             continue
         f = _fn(l, via)
-        sig = {"clause": "types", "l": l, "via": via, "form": form}
+        sig = {"clause": "types", "l": l, "via": via.split(":")[0], "form": form}
         for i, a in enumerate(ths):
             for k, b in enumerate(phs):
-                v = f(mk(a), mk(b))
+                if zero_d and l > 10 and b < 0 and "0d-azimuth-inplace" in KNOWN_OPEN:
+                    continue
+                a_, b_ = mk(a), mk(b)
+                v = f(a_, b_)
+                if zero_d and not (a_.shape == () and b_.shape == () and a_.dtype == mk(a).dtype and b_.dtype == mk(b).dtype and a_ == mk(a) and b_ == mk(b)):
+                    R.fail(f"l={l} ({via}) with {form} angles ({a}, {b}): the caller's 0-d arrays were modified (now {a_!r}, {b_!r})", sig=dict(sig, clause="input_modified"))
+                    return R
                 if v is None or np.shape(v) != (2 * l + 1,):
                     R.fail(f"l={l} ({via}) with {form} angles ({a}, {b}): returned shape {np.shape(v)}, expected ({2 * l + 1},)", sig=dict(sig, clause="shape"))
                     return R
@@ -303,7 +330,7 @@ def run_types(case):
                            sig=sig, exp=ref[i, k], obs=v)
                     return R
     R.elem = len(allv) * (2 * l + 1)
-    R.outcome(np.round(np.array(allv), 3 if form == "np.float32" else 9))
+    R.outcome(np.round(np.array(allv), 3 if "float32" in form else 9))
     return R
 
 
@@ -447,10 +474,11 @@ def subs(tier, seed):
             bounds={"l": [1, 20], "domain_grid": [DT, DP]})
     out.append(s)
     s = Sub("C08.types", gen_types, run_types,
-            rule="ARGUMENT TYPES: l=1..20 x scalar type of both angles (" + ", ".join(c08x.SCALAR_FORMS) + ") x SphHarm{l}/SphHarm_above and "
-                 "sph_harm_l (l as python int and as np.int64); all pairs of 4 integer polar x 7 integer azimuth angles (radians) resp. 6 x 8 dyadic angles "
+            rule="ARGUMENT TYPES: l=1..20 x storage of both angles (scalars: " + ", ".join(c08x.SCALAR_FORMS) + "; numpy 0-d ARRAYS: " + ", ".join(c08y.ZERO_D_FORMS)
+                 + ", which must come back unchanged) x SphHarm{l}/SphHarm_above and sph_harm_l (l as python int and as np.int64 / int32 / int16 / int8)"
+                 + ("; KNOWN_OPEN " + ", ".join(KNOWN_OPEN) + ": 0-d arrays with a negative azimuth are skipped for l > 10" if KNOWN_OPEN else "") + "; all pairs of 4 integer polar x 7 integer azimuth angles (radians) resp. 6 x 8 dyadic angles "
                  "(exact in float32; azimuth also in (pi, 2 pi], which the docstrings allow), compared with the reference Y_lm (float32: to 1e-3 only)",
-            bounds={"forms": c08x.SCALAR_FORMS, "int_theta": c08x.INT_THETA, "int_phi": c08x.INT_PHI, "dyadic_theta": c08x.DYADIC_THETA, "dyadic_phi": c08x.DYADIC_PHI})
+            bounds={"forms": c08x.SCALAR_FORMS + c08y.ZERO_D_FORMS, "l_types": list(c08y.L_TYPES), "int_theta": c08x.INT_THETA, "int_phi": c08x.INT_PHI, "dyadic_theta": c08x.DYADIC_THETA, "dyadic_phi": c08x.DYADIC_PHI})
     out.append(s)
     s = Sub("C08.scale", gen_scale, run_scale,
             rule="SIZES: the polar angle given as a numpy array of shape " + str(SHAPES_Q if tier == "quick" else SHAPES_T) + " (one fixed angle "
